@@ -430,79 +430,95 @@ func (c *ctx) dependsOn() {
 		c.s.Unk("G19", "compiler.scheduleFlowAndToposort", "", "not found")
 	} else {
 		info := fc.pkg.TypesInfo
+		// scheduleFlowAndToposort and the package-local functions it is split into
+		bodies := []*ast.FuncDecl{fd}
+		seenBody := map[*ast.FuncDecl]bool{fd: true}
+		for _, ic := range astx.CallsInlined(info, fc.pkg.Syntax, fd, 2) {
+			if !seenBody[ic.Fd] {
+				seenBody[ic.Fd] = true
+				bodies = append(bodies, ic.Fd)
+			}
+		}
 		n := 0
-		astx.Writes(fd.Body, func(l ast.Expr, at ast.Node) {
-			se, ok := astx.Unparen(l).(*ast.SelectorExpr)
-			if !ok || se.Sel.Name != "DependsOn" {
-				return
-			}
-			n++
-			as, isAs := at.(*ast.AssignStmt)
-			good := isAs && len(as.Rhs) == 1
-			if good {
-				call, ok := as.Rhs[0].(*ast.CallExpr)
-				good = ok && astx.IsBuiltin(info, call, "append") && len(call.Args) == 2 && astx.Same(info, call.Args[0], l)
+		for _, bfd := range bodies {
+			bfc := c.fileOf(bfd)
+			astx.Writes(bfd.Body, func(l ast.Expr, at ast.Node) {
+				fc, fd := bfc, bfd
+				se, ok := astx.Unparen(l).(*ast.SelectorExpr)
+				if !ok || se.Sel.Name != "DependsOn" {
+					return
+				}
+				n++
+				as, isAs := at.(*ast.AssignStmt)
+				good := isAs && len(as.Rhs) == 1
 				if good {
-					ix, ok := call.Args[1].(*ast.IndexExpr)
-					good = ok && strings.HasSuffix(astx.Short(ix.X), ".Funcs")
+					call, ok := as.Rhs[0].(*ast.CallExpr)
+					good = ok && astx.IsBuiltin(info, call, "append") && len(call.Args) == 2 && astx.Same(info, call.Args[0], l)
+					if good {
+						ix, ok := call.Args[1].(*ast.IndexExpr)
+						good = ok && strings.HasSuffix(astx.Short(ix.X), ".Funcs")
+					}
 				}
-			}
-			// unconditional inside its loops
-			conds := 0
-			for _, cd := range fc.par.Known(at, fd) {
-				if is, ok := cd.At.(*ast.IfStmt); ok && fc.par.Within(is, fd.Body) {
-					conds++
+				// unconditional inside its loops
+				conds := 0
+				for _, cd := range fc.par.Known(at, fd) {
+					if is, ok := cd.At.(*ast.IfStmt); ok && fc.par.Within(is, fd.Body) {
+						conds++
+					}
 				}
-			}
-			c.s.Check(good && conds == 0, "G19", "scheduleFlowAndToposort|DependsOn gets every provider, unconditionally", c.pos(at), "one edge per dependency type that a function provides (duplicates are harmless: the scheduler counts and notifies per occurrence)", "a dependency edge is dropped or added conditionally when DependsOn is built: the generated job can start before a provider (or its own predicate) finished")
-		})
+				c.s.Check(good && conds == 0, "G19", "scheduleFlowAndToposort|DependsOn gets every provider, unconditionally", c.pos(at), "one edge per dependency type that a function provides (duplicates are harmless: the scheduler counts and notifies per occurrence)", "a dependency edge is dropped or added conditionally when DependsOn is built: the generated job can start before a provider (or its own predicate) finished")
+			})
+		}
 		if n != 1 {
 			c.s.Unk("G19", "scheduleFlowAndToposort|DependsOn construction", c.pos(fd), fmt.Sprintf("%d assignments to DependsOn (want 1)", n))
 		}
 		// the Dependencies closure: for each typ: providers.At(typ) ok => append
 		var lit *ast.FuncLit
-		ast.Inspect(fd.Body, func(nn ast.Node) bool {
-			if kv, ok := nn.(*ast.KeyValueExpr); ok {
-				if id, ok := kv.Key.(*ast.Ident); ok && id.Name == "Dependencies" {
-					lit, _ = kv.Value.(*ast.FuncLit)
-					if lit == nil {
-						// a method value / named function: `Dependencies: f.funcDependencies`
-						var fobj *types.Func
-						switch v := astx.Unparen(kv.Value).(type) {
-						case *ast.SelectorExpr:
-							fobj, _ = info.Uses[v.Sel].(*types.Func)
-						case *ast.Ident:
-							fobj, _ = info.Uses[v].(*types.Func)
-						}
-						if fobj != nil {
-							for _, f2 := range c.files {
-								if d := astx.DeclOfFunc(f2.pkg.TypesInfo, []*ast.File{f2.file}, fobj); d != nil && d.Body != nil {
-									lit = &ast.FuncLit{Type: d.Type, Body: d.Body}
+		for _, bfd := range bodies {
+			fd := bfd
+			ast.Inspect(fd.Body, func(nn ast.Node) bool {
+				if kv, ok := nn.(*ast.KeyValueExpr); ok {
+					if id, ok := kv.Key.(*ast.Ident); ok && id.Name == "Dependencies" {
+						lit, _ = kv.Value.(*ast.FuncLit)
+						if lit == nil {
+							// a method value / named function: `Dependencies: f.funcDependencies`
+							var fobj *types.Func
+							switch v := astx.Unparen(kv.Value).(type) {
+							case *ast.SelectorExpr:
+								fobj, _ = info.Uses[v.Sel].(*types.Func)
+							case *ast.Ident:
+								fobj, _ = info.Uses[v].(*types.Func)
+							}
+							if fobj != nil {
+								for _, f2 := range c.files {
+									if d := astx.DeclOfFunc(f2.pkg.TypesInfo, []*ast.File{f2.file}, fobj); d != nil && d.Body != nil {
+										lit = &ast.FuncLit{Type: d.Type, Body: d.Body}
+									}
 								}
 							}
 						}
-					}
-					if vid, ok := kv.Value.(*ast.Ident); ok && lit == nil {
-						// a local function value defined once: `deps := func(i int) []int {...}`
-						obj := astx.IdentObj(info, vid)
-						n := 0
-						astx.Writes(fd.Body, func(l ast.Expr, at ast.Node) {
-							if astx.IdentObj(info, l) != obj || obj == nil {
-								return
+						if vid, ok := kv.Value.(*ast.Ident); ok && lit == nil {
+							// a local function value defined once: `deps := func(i int) []int {...}`
+							obj := astx.IdentObj(info, vid)
+							n := 0
+							astx.Writes(fd.Body, func(l ast.Expr, at ast.Node) {
+								if astx.IdentObj(info, l) != obj || obj == nil {
+									return
+								}
+								n++
+								if as, ok := at.(*ast.AssignStmt); ok && len(as.Rhs) == 1 {
+									lit, _ = as.Rhs[0].(*ast.FuncLit)
+								}
+							})
+							if n != 1 {
+								lit = nil
 							}
-							n++
-							if as, ok := at.(*ast.AssignStmt); ok && len(as.Rhs) == 1 {
-								lit, _ = as.Rhs[0].(*ast.FuncLit)
-							}
-						})
-						if n != 1 {
-							lit = nil
 						}
 					}
 				}
-			}
-			return true
-		})
+				return true
+			})
+		}
 		good := false
 		if lit != nil {
 			ast.Inspect(lit.Body, func(nn ast.Node) bool {
